@@ -1,10 +1,10 @@
 # -*- coding: utf-8 -*-
 
 import abc
+import calendar
 import datetime
 import enum
 import struct
-import time
 
 import attr
 import six
@@ -838,9 +838,9 @@ class ComposerBinary(ComposerBase):
 
     def compose_timestamp(self, value, milliseconds=False, item_size=8):
         if value is None:
-            timestamp = 0xffffffffffffffff
+            timestamp = 2 ** (8 * item_size) - 1
         else:
-            timestamp = int(time.mktime(value.timetuple())) - time.timezone
+            timestamp = calendar.timegm(value.utctimetuple())
 
             if milliseconds:
                 timestamp *= 1000
